@@ -65,6 +65,7 @@ type Ctx struct {
 	Seed     int64
 	Deadline time.Time
 	Poison   map[int64]string // case numbers that killed an earlier worker (value: how): report, do not execute
+	Resume   int64            // cases below this number were executed by an earlier attempt that died later: skip silently
 	Res      Result
 
 	caseNo    int64
@@ -115,7 +116,24 @@ func (c *Ctx) Begin() (caseNo int64, run bool) {
 	if _, bad := c.Poison[n]; bad {
 		return n, false
 	}
+	if n < c.Resume {
+		return n, false
+	}
 	return n, true
+}
+
+// Skip tells a harness not to execute the case announced by Begin: either an earlier attempt on this
+// shard already executed it (and died later), or it is the case that killed an earlier worker - then
+// the death is recorded as a failure of this case with the given input.
+func (c *Ctx) Skip(caseNo int64, run bool, input any) bool {
+	if run {
+		return false
+	}
+	if _, bad := c.Poison[caseNo]; bad {
+		c.Res.Outcomes["FAIL:"+c.Fatal(caseNo)]++
+		c.Fail(caseNo, nil, c.Fatal(caseNo), input, "every call returns", "the worker process died on this case ("+c.Poison[caseNo]+")")
+	}
+	return true
 }
 
 // Fatal is the fingerprint for a poisoned case ("fatal:stack-overflow", "fatal:hang", ...).
@@ -202,6 +220,10 @@ func (c *Ctx) Fail(caseNo int64, classes []string, fingerprint string, input any
 	c.Res.FailCounts[k]++
 	if c.Res.FailCounts[k] <= 2 && len(c.Res.Failures) < 200 {
 		c.Res.Failures = append(c.Res.Failures, f)
+		// also stream it: if the worker dies later, the driver still has it
+		if b, err := json.Marshal(map[string]any{"failure": f}); err == nil {
+			os.Stdout.Write(append(b, '\n'))
+		}
 	}
 }
 
@@ -301,6 +323,9 @@ type Prop struct {
 	Rule        string
 	Assumptions []string
 	Level       string
+	// NoResume: the enumeration of later cases depends on executing earlier ones (DFS over choice
+	// points discovered at run time), so a shard cannot fast-forward past executed cases.
+	NoResume bool
 }
 
 var registry = map[string]*Prop{}
